@@ -473,7 +473,7 @@ func main() {
 	cov["outcome_class_count"] = c.classes.Len()
 	cov["rule"] = "BFS over operation histories; one execution = fresh in-tree instance (+ fresh reference instance), replay of the representative history, one more op, oracle on the op and on the state reached; every (representative history, enabled op) pair is executed; a state is distinct by canonical key. " +
 		"Trie / SecureTrie: alphabet = update(k,v) for 3 value sizes (1/31/33 B), delete(k), [thorough: update(k,empty)], get(k), prove(k) for every key, hash, commit, commit+reopen in 3 variants (same node database; after Database.Commit to the disk db; brand-new Database on the disk db); 8 keys for the plain trie (shared nibble prefixes 0,1,3,4,63; a three-way branch with hashed children; strict nibble-prefix keys incl. the empty key; two 32-byte keys differing in the last nibble), 6 32-byte keys for the secure trie (keccak images sharing 0,1,2,3 nibbles, three-way root branch); canonical key = content map + residency class (coarse: never committed|committed|reopened × clean|dirty; fine: never committed|committed|reopened×3 variants × clean|dirty|hashed). Light oracle on every execution: every Get = content, root = reference root = root of a fresh in-tree trie built by sorted insertion, merge oracle (equal content ⇒ equal root); full oracle on every execution that discovers a state: additionally Prove→VerifyProof (in-tree and reference verifier) for every key incl. absent ones, leaf iteration = content, root unchanged by reads; " + refRule + ". " +
-		"StateDB: 2 addresses, alphabet = AddBalance(0|5), SubBalance(5) if affordable, SetNonce, SetCode, SetState(2 slots × {0,7}), Suicide, CreateAccount per address, AddLog, AddRefund, Snapshot, RevertToSnapshot(every live snapshot), IntermediateRoot(true), Commit(true)+state.New in 2 variants (same state.Database; TrieDB().Commit + brand-new state.Database on the disk db), from two start states (empty; seeded = contract with committed storage + funded account, built through the API); canonical key = all getter-observable state of the current revision and of every live snapshot; the reference StateDB is driven through the same history on every execution. " +
+		"StateDB: 2 addresses, alphabet = AddBalance(0|5), SubBalance(5) if affordable, SetNonce, SetCode, SetState(2 slots × {0,7}), Suicide, CreateAccount per address, AddLog, AddRefund, Snapshot, RevertToSnapshot(every live snapshot), IntermediateRoot(true), Commit(true)+state.New in 2 variants (same state.Database; TrieDB().Commit + brand-new state.Database on the disk db), from two start states (empty; seeded = contract with committed storage + funded account, built through the API); canonical key = all getter-observable state of the current revision and of every live snapshot + whether the instance was finalised in place (IntermediateRoot) since it was opened + whether a live account was re-created in the current transaction; the reference StateDB is driven through the same history on every execution. " +
 		"distinct_nontrivial = number of distinct canonical states reached (an execution that ends in an already known canonical state is a merge and is not counted); outcome_class_count = distinct (part, op, residency class or model effect) classes observed, outcome_classes = their histogram without the residency component."
 	cov["exhaustive"] = true
 	cov["bounds"] = bounds
